@@ -370,7 +370,12 @@ def alg_property_fails(rec):
         _, p, o = rec
         if p[0] == 0:
             return o is not None
-        return o is None or tuple(P.Pos(*p)) not in [tuple(c) for c in P.pos_children(P.Pos(*o[0]))]
+        if o is None:
+            return True
+        # parent and children agree: the reported child indices (ix, iy) name the slot of pos_children(parent)
+        # (order top-left, top-right, bottom-left, bottom-right) that holds p
+        ch = [tuple(c) for c in P.pos_children(P.Pos(*o[0]))]
+        return o[1] not in (0, 1) or o[2] not in (0, 1) or ch[2 * o[2] + o[1]] != tuple(p)
     if rec[0] == "children":
         _, p, ch = rec
         return any(tuple(P.pos_parent(P.Pos(*c))[0]) != p for c in ch) or len(set(ch)) != 4
